@@ -450,6 +450,11 @@ func posTyCases(c *vh.Ctx, tag string) []PosCase {
 				}
 				vecs := posTyVectors(c, n, perArity, func(i int) bool { return posHasDefault(v, i, n) })
 				for _, tys := range vecs {
+					if v == "few" && tys[n-1] >= 5 && tys[n-1] <= 9 {
+						// the parameter whose argument is missing: a type that does not accept null (with `?T` the callee
+						// would see null, a value of the type: no claim of this property either way)
+						tys[n-1] -= 5
+					}
 					slots := n
 					if v == "variadic" {
 						slots = n + 1
@@ -581,7 +586,11 @@ func posBindLine(x PosCase) string {
 	vals := valDecls()
 	n := len(x.Tys)
 	var slots []string
-	for _, q := range posCallOrder(x.Variant, x.Args) {
+	// named arguments are resolved to parameter order before anything is evaluated (resolveNamedArguments), so the
+	// slots are evaluated and bound in parameter order whatever the order at the call
+	given := posCallOrder(x.Variant, x.Args)
+	sort.Ints(given)
+	for _, q := range given {
 		p := posParamOf(q, n)
 		b := posSlotBoundary(x.Boundary, p)
 		if x.Variant == "variadic" && p == n-1 {
@@ -771,21 +780,13 @@ func runPosTypes(c *vh.Ctx, m *vh.Model, tag string, only *PosCase) {
 	}
 }
 
-// the offender that is evaluated first at the call
+// the offender that is evaluated first (parameter order, see posBindLine)
 func posFirstInOrder(x PosCase, offs []posOffender) int {
-	is := map[int]bool{}
-	for _, f := range offs {
-		is[f.q] = true
+	if len(offs) == 0 {
+		return -1
 	}
-	for _, q := range posCallOrder(x.Variant, x.Args) {
-		if is[q] {
-			return q
-		}
-	}
-	return -1
+	return offs[0].q
 }
-
-var _ = sort.Ints
 
 // C07_DUMP_POS=dir writes the generated scripts there
 func posDump(name, src string) {
@@ -799,8 +800,613 @@ func runPos(c *vh.Ctx, m *vh.Model, tag string, only *PosCase) {
 		switch only.Fam {
 		case "ty":
 			runPosTypes(c, m, tag, only)
+		case "store":
+			runPosStores(c, m, tag, only)
+		case "vis":
+			runPosVis(c, m, tag, only)
 		}
 		return
 	}
 	runPosTypes(c, m, tag, nil)
+	runPosStores(c, m, tag+"s", nil)
+	runPosVis(c, m, tag+"v", nil)
+}
+
+// ------------------------------------------------------------ fam "store": several typed properties written in one go
+
+var posStoreForms = []string{"seq", "dynseq", "idxseq", "list", "methbody", "ctorbody"}
+
+func posStoreDeclare(sb *strings.Builder, tag string, id int, tys []int) {
+	at := func(s string) string { return strings.ReplaceAll(s, "@", tag) }
+	td := tyDecls()
+	fmt.Fprintf(sb, "class TS%s_%d {\n", tag, id)
+	var looks, params, sets []string
+	for i, t := range tys {
+		fmt.Fprintf(sb, "  public %s $p%d;\n", at(td[t].Src), i)
+		looks = append(looks, fmt.Sprintf("tg%s($this->p%d)", tag, i))
+		params = append(params, fmt.Sprintf("$x%d", i))
+		sets = append(sets, fmt.Sprintf("$this->p%d = $x%d;", i, i))
+	}
+	fmt.Fprintf(sb, "  public function look() { return %s; }\n", strings.Join(looks, " . \",\" . "))
+	fmt.Fprintf(sb, "  public function setAll(%s) { %s hit%s(0); }\n", strings.Join(params, ", "), strings.Join(sets, " "), tag)
+	sb.WriteString("}\n")
+	// the same slots filled by a constructor body; the object under construction is handed out first so that
+	// what a refused construction left behind can be looked at
+	fmt.Fprintf(sb, "class TK%s_%d extends TS%s_%d {\n  public function __construct($box, %s) { $box->o = $this; %s hit%s(0); }\n}\n",
+		tag, id, tag, id, strings.Join(params, ", "), strings.Join(sets, " "), tag)
+}
+
+func posStoreStmt(tag string, form string, id int, x PosCase) string {
+	tys, vals := tyDecls(), valDecls()
+	var srcs []string
+	for q, a := range x.Args {
+		bad := !tys[x.Tys[q]].Denotes(vals[a].Name)
+		srcs = append(srcs, posValSrc(tag, a, q, bad))
+	}
+	var st []string
+	switch form {
+	case "seq":
+		for q, s := range srcs {
+			st = append(st, fmt.Sprintf("$so->p%d = %s;", q, s))
+		}
+	case "dynseq":
+		for q, s := range srcs {
+			st = append(st, fmt.Sprintf("$pn = \"p%d\"; $so->$pn = %s;", q, s))
+		}
+	case "idxseq":
+		for q, s := range srcs {
+			st = append(st, fmt.Sprintf("$so[\"p%d\"] = %s;", q, s))
+		}
+	case "list":
+		var l []string
+		for q := range srcs {
+			l = append(l, fmt.Sprintf("$so->p%d", q))
+		}
+		st = append(st, fmt.Sprintf("[%s] = [%s];", strings.Join(l, ", "), strings.Join(srcs, ", ")))
+	case "methbody":
+		st = append(st, fmt.Sprintf("$so->setAll(%s);", strings.Join(srcs, ", ")))
+	case "ctorbody":
+		st = append(st, fmt.Sprintf("$nk = new TK%s_%d($box, %s);", tag, id, strings.Join(srcs, ", ")))
+	}
+	return strings.Join(st, " ")
+}
+
+func posStoreScript(tag string, cases []PosCase) string {
+	var sb strings.Builder
+	sb.WriteString("<?php\n")
+	posPrelude(&sb, tag)
+	fmt.Fprintf(&sb, "class Box%s { public $o = null; }\n", tag)
+	ids := map[string]int{}
+	for _, x := range cases {
+		k := fmt.Sprint(x.Tys)
+		if _, ok := ids[k]; !ok {
+			ids[k] = len(ids)
+			posStoreDeclare(&sb, tag, ids[k], x.Tys)
+		}
+	}
+	for id, x := range cases {
+		g := ids[fmt.Sprint(x.Tys)]
+		posCellOpen(&sb, tag)
+		fmt.Fprintf(&sb, "$so = new TS%s_%d(); $box = new Box%s();\n", tag, g, tag)
+		fmt.Fprintf(&sb, "try { %s $r = \"ok=-\"; } %s\n", posStoreStmt(tag, x.Boundary, g, x), posCatch)
+		if x.Boundary == "ctorbody" {
+			sb.WriteString("if ($box->o !== null) { $so = $box->o; }\n")
+		}
+		sb.WriteString("$st = $so->look();\n")
+		posCellClose(&sb, tag, id)
+	}
+	return sb.String()
+}
+
+func posStoreCases(c *vh.Ctx, tag string) []PosCase {
+	var cases []PosCase
+	for _, form := range posStoreForms {
+		for n := 2; n <= 4; n++ {
+			for _, tys := range posTyVectors(c, n, c.N(1, 3), nil) {
+				base := make([]int, n)
+				for q := range base {
+					in := posInside(c, tys[q])
+					base[q] = in[c.Rand.Intn(len(in))]
+					if valDecls()[base[q]].Name == "null" && len(in) > 1 {
+						// a slot that still holds null must mean "never written"
+						for _, j := range in {
+							if valDecls()[j].Name != "null" {
+								base[q] = j
+								break
+							}
+						}
+					}
+				}
+				mk := func(a []int) {
+					cases = append(cases, PosCase{Kind: "pos", Fam: "store", Tag: tag, Boundary: form, Tys: tys, Args: a})
+				}
+				mk(append([]int{}, base...))
+				bad := func(q int) int {
+					cd, ot := posOutside(tys[q])
+					var all []int
+					for _, j := range append(cd, ot...) {
+						if valDecls()[j].Name != "null" {
+							all = append(all, j)
+						}
+					}
+					return all[c.Rand.Intn(len(all))]
+				}
+				for q := 0; q < n; q++ {
+					a := append([]int{}, base...)
+					a[q] = bad(q)
+					mk(a)
+				}
+				for i := 0; i < n; i++ {
+					for j := i + 1; j < n; j++ {
+						a := append([]int{}, base...)
+						a[i], a[j] = bad(i), bad(j)
+						mk(a)
+					}
+				}
+			}
+		}
+	}
+	return cases
+}
+
+func runPosStores(c *vh.Ctx, m *vh.Model, tag string, only *PosCase) {
+	var cases []PosCase
+	if only != nil {
+		cases = []PosCase{*only}
+	} else {
+		cases = posStoreCases(c, tag)
+	}
+	src := posStoreScript(tag, cases)
+	posDump("store", src)
+	out := vh.RunFresh(src)
+	got := parsePosOut(out.Out)
+	if out.Kind != "ok" {
+		viol(c, "storepos:script-"+out.Kind, fmt.Sprintf("the multi-slot script ended with %s: %s", out.Kind, out.Detail), PosCase{Kind: "pos", Fam: "store", Tag: tag})
+	}
+	tys, vals := tyDecls(), valDecls()
+	at := func(s string) string { return strings.ReplaceAll(s, "@", tag) }
+	var ans []string
+	if m != nil {
+		var lines []string
+		for _, x := range cases {
+			var slots []string
+			for q, a := range x.Args {
+				slots = append(slots, fmt.Sprintf("%s,%s,%s", posStoreBoundary(x.Boundary), vals[a].Model, tyTokens(x.Tys[q])))
+			}
+			lines = append(lines, "sseq\t"+typeH+"\t"+strings.Join(slots, ";"))
+		}
+		var err error
+		if ans, err = m.AskBatch(lines); err != nil {
+			c.Mismatch(nil, "", err.Error(), "model driver failed (sseq)")
+			ans = nil
+		}
+	}
+	for id, x := range cases {
+		o := got[id]
+		sigBase := "storepos:" + x.Boundary
+		c.Eval(x.key(), true)
+		c.Hit("pos:store:" + x.Boundary)
+		first := -1
+		var want, ps, as []string
+		for q, a := range x.Args {
+			in := tys[x.Tys[q]].Denotes(vals[a].Name)
+			if !in && first < 0 {
+				first = q
+			}
+			if first < 0 {
+				want = append(want, at(vals[a].Tag))
+			} else {
+				want = append(want, "null")
+			}
+			ps = append(ps, tys[x.Tys[q]].Src)
+			if in {
+				as = append(as, vals[a].Name)
+			} else {
+				as = append(as, vals[a].Name+"(!)")
+			}
+		}
+		desc := fmt.Sprintf("%s (%s) <- (%s)", x.Boundary, strings.Join(ps, ", "), strings.Join(as, ", "))
+		c.SampleSome(map[string]any{"case": x, "what": desc, "impl": o}, 499)
+		if !o.found || (!o.ok && !o.denied) {
+			viol(c, sigBase+":no-outcome", "no ok/denied marker for "+desc, x)
+			continue
+		}
+		if ans != nil {
+			c.Res.Traces++
+			impl := "ok"
+			if o.denied {
+				impl = "rej"
+			}
+			impl += " " + strings.ReplaceAll(o.state, ",", ".")
+			wantM := ans[id]
+			// the model answers in value kinds; the script in tags
+			if k := strings.IndexByte(wantM, ' '); k >= 0 {
+				var ts []string
+				for _, v := range strings.Split(wantM[k+1:], ".") {
+					t := v
+					for _, vd := range vals {
+						if vd.Model == v {
+							t = at(vd.Tag)
+						}
+					}
+					if v == "-" {
+						t = "null"
+					}
+					ts = append(ts, t)
+				}
+				head := wantM[:k]
+				if strings.HasPrefix(head, "rej") {
+					head = "rej"
+				}
+				wantM = head + " " + strings.Join(ts, ".")
+			}
+			if impl != wantM {
+				c.Mismatch(x, impl, wantM, "several typed slots written in one go: "+desc)
+			}
+		}
+		state := strings.Split(o.state, ",")
+		switch {
+		case o.ok && first >= 0:
+			if first < len(state) && state[first] != "null" {
+				viol(c, sigBase+":admitted", fmt.Sprintf("slot %d now holds a %s value although it is declared %s: %s (state %s)", first, state[first], tys[x.Tys[first]].Src, desc, o.state), x)
+			} else {
+				viol(c, sigBase+":silent", fmt.Sprintf("slot %d refused its value without any error reaching the script: %s (state %s)", first, desc, o.state), x)
+			}
+		case o.denied && first < 0:
+			viol(c, sigBase+":rejects", fmt.Sprintf("every value fits but the stores were refused: %s: %s %s", desc, o.class, firstN(o.msg, 100)), x)
+		}
+		if o.state != strings.Join(want, ",") && !(o.ok && first >= 0) {
+			viol(c, sigBase+":effect", fmt.Sprintf("after %s the slots hold %s, expected %s (everything before the first refused store, nothing from it on)", desc, o.state, strings.Join(want, ",")), x)
+		}
+		if o.denied && first >= 0 {
+			if rep := posReported(o.msg); rep >= 0 && rep != first {
+				viol(c, sigBase+":not-first", fmt.Sprintf("slot %d is the first whose value does not fit but the refusal talks about the value of slot %d: %s", first, rep, desc), x)
+			}
+			if (x.Boundary == "methbody" || x.Boundary == "ctorbody") && o.ran != 0 {
+				viol(c, sigBase+":effect", fmt.Sprintf("the body went on after a refused store: %s", desc), x)
+			}
+		}
+	}
+}
+
+func posStoreBoundary(form string) string {
+	switch form {
+	case "dynseq":
+		return "dynPropStore"
+	case "idxseq":
+		return "idxStore"
+	}
+	return "propStore"
+}
+
+// ------------------------------------------------------------ fam "vis": several member accesses in one expression
+
+var posVisContainers = []string{"fnargs", "methargs", "staticargs", "ctorargs", "closargs", "array", "assoc", "concat", "plus", "writes", "listwrites"}
+var posVisReadPaths = []string{"propRead", "dynPropRead", "idxRead", "methCall", "dynMeth", "staticMeth"}
+var posVisWritePaths = []string{"propWrite", "dynPropWrite", "idxWrite"}
+var posVisSites = []string{"outside", "unrelated", "subclass"}
+
+func posVisIsWrite(container string) bool { return container == "writes" || container == "listwrites" }
+
+func posVisPrelude(sb *strings.Builder, tag string) {
+	posPrelude(sb, tag)
+	fmt.Fprintf(sb, `class VD%[1]s {
+  public $pw0 = 0; public $pw1 = 0; public $pw2 = 0;
+  private $p_priv = 7; protected $p_prot = 7;
+  public function ma($i) { LG%[1]s::$log = LG%[1]s::$log . "a" . $i . "."; return $i; }
+  private function m_priv($i) { LG%[1]s::$log = LG%[1]s::$log . "V" . $i . "."; return $i; }
+  protected function m_prot($i) { LG%[1]s::$log = LG%[1]s::$log . "V" . $i . "."; return $i; }
+  private static function s_priv($i) { LG%[1]s::$log = LG%[1]s::$log . "V" . $i . "."; return $i; }
+  protected static function s_prot($i) { LG%[1]s::$log = LG%[1]s::$log . "V" . $i . "."; return $i; }
+  public function m3($x, $y, $z) { return hit%[1]s("m"); }
+  public static function s3($x, $y, $z) { return hit%[1]s("s"); }
+  public function look() { return $this->pw0 . "," . $this->pw1 . "," . $this->pw2 . "," . $this->p_priv . "," . $this->p_prot; }
+}
+class VC%[1]s { public function __construct($x, $y, $z) { hit%[1]s("c"); } }
+function vf%[1]s($x, $y, $z) { return hit%[1]s("f"); }
+$vcl = function($x, $y, $z) { return hit%[1]s("l"); };
+`, tag)
+}
+
+// operand i of a cell: the guarded access when i is a refused position, a public method call otherwise
+func posVisOperand(tag string, x PosCase, i int, guarded bool) string {
+	if !guarded {
+		if posVisIsWrite(x.Boundary) {
+			return fmt.Sprintf("$o->pw%d", i)
+		}
+		return fmt.Sprintf("$o->ma(%d)", i)
+	}
+	m := x.Mod
+	switch x.Variant {
+	case "propRead", "propWrite":
+		return "$o->p_" + m
+	case "dynPropRead", "dynPropWrite":
+		return "$o->{$n_" + m + "}"
+	case "idxRead", "idxWrite":
+		return "$o[\"p_" + m + "\"]"
+	case "methCall":
+		return fmt.Sprintf("$o->m_%s(%d)", m, i)
+	case "dynMeth":
+		return fmt.Sprintf("$o->{$f_%s}(%d)", m, i)
+	case "staticMeth":
+		return fmt.Sprintf("VD%s::s_%s(%d)", tag, m, i)
+	}
+	return "null"
+}
+
+func posVisBody(tag string, x PosCase) string {
+	isBad := map[int]bool{}
+	for _, b := range x.Bad {
+		isBad[b] = true
+	}
+	var ops []string
+	for i := 0; i < 3; i++ {
+		ops = append(ops, posVisOperand(tag, x, i, isBad[i]))
+	}
+	pre := fmt.Sprintf("$n_priv = \"p_priv\"; $n_prot = \"p_prot\"; $f_priv = \"m_priv\"; $f_prot = \"m_prot\"; ")
+	switch x.Boundary {
+	case "fnargs":
+		return pre + fmt.Sprintf("return vf%s(%s);", tag, strings.Join(ops, ", "))
+	case "methargs":
+		return pre + fmt.Sprintf("return $o->m3(%s);", strings.Join(ops, ", "))
+	case "staticargs":
+		return pre + fmt.Sprintf("return VD%s::s3(%s);", tag, strings.Join(ops, ", "))
+	case "ctorargs":
+		return pre + fmt.Sprintf("$c = new VC%s(%s); return \"c\";", tag, strings.Join(ops, ", "))
+	case "closargs":
+		return pre + fmt.Sprintf("return $cl(%s);", strings.Join(ops, ", "))
+	case "array":
+		return pre + fmt.Sprintf("$t = [%s]; return count($t);", strings.Join(ops, ", "))
+	case "assoc":
+		return pre + fmt.Sprintf("$t = [\"k0\" => %s, \"k1\" => %s, \"k2\" => %s]; return \"3\";", ops[0], ops[1], ops[2])
+	case "concat":
+		return pre + fmt.Sprintf("$t = %s; return \"3\";", strings.Join(ops, " . "))
+	case "plus":
+		return pre + fmt.Sprintf("$t = %s; return \"3\";", strings.Join(ops, " + "))
+	case "writes":
+		var st []string
+		for i, op := range ops {
+			st = append(st, fmt.Sprintf("%s = %d;", op, 10+i))
+		}
+		return pre + strings.Join(st, " ") + " return \"3\";"
+	case "listwrites":
+		return pre + fmt.Sprintf("[%s] = [10, 11, 12]; return \"3\";", strings.Join(ops, ", "))
+	}
+	return "return \"?\";"
+}
+
+func posVisCases(c *vh.Ctx, tag string) []PosCase {
+	var cases []PosCase
+	bads := [][]int{{}, {0}, {1}, {2}, {0, 2}, {1, 2}}
+	for _, site := range posVisSites {
+		for _, cont := range posVisContainers {
+			paths := posVisReadPaths
+			if posVisIsWrite(cont) {
+				paths = posVisWritePaths
+			}
+			for _, path := range paths {
+				for _, mod := range []string{"priv", "prot"} {
+					if site == "subclass" && mod == "prot" && strings.HasPrefix(path, "idx") {
+						// `$o['p']` lets through public members only, also where PHP allows more: an over-refusal,
+						// counted by the matrix (acc:over-denied), not a violation of "usable only from …"
+						continue
+					}
+					for _, b := range bads {
+						cases = append(cases, PosCase{Kind: "pos", Fam: "vis", Tag: tag, Boundary: cont, Variant: path, Mod: mod, Site: site, Bad: b})
+					}
+				}
+			}
+		}
+	}
+	return cases
+}
+
+func posVisScript(tag string, cases []PosCase) string {
+	var sb strings.Builder
+	sb.WriteString("<?php\n")
+	posVisPrelude(&sb, tag)
+	var sub, unr strings.Builder
+	for id, x := range cases {
+		switch x.Site {
+		case "subclass":
+			fmt.Fprintf(&sub, "  public static function c%d($o, $cl) { %s }\n", id, posVisBody(tag, x))
+		case "unrelated":
+			fmt.Fprintf(&unr, "  public static function c%d($o, $cl) { %s }\n", id, posVisBody(tag, x))
+		default:
+			fmt.Fprintf(&sb, "function vo%s_%d($o, $cl) { %s }\n", tag, id, posVisBody(tag, x))
+		}
+	}
+	fmt.Fprintf(&sb, "class VS%s extends VD%s {\n%s}\nclass VU%s {\n%s}\n", tag, tag, sub.String(), tag, unr.String())
+	for id, x := range cases {
+		posCellOpen(&sb, tag)
+		call := fmt.Sprintf("vo%s_%d($o, $vcl)", tag, id)
+		switch x.Site {
+		case "subclass":
+			call = fmt.Sprintf("VS%s::c%d($o, $vcl)", tag, id)
+		case "unrelated":
+			call = fmt.Sprintf("VU%s::c%d($o, $vcl)", tag, id)
+		}
+		fmt.Fprintf(&sb, "$o = new VD%s();\ntry { $v = %s; $r = \"ok=\" . $v; } %s\n$st = $o->look();\n", tag, call, posCatch)
+		posCellClose(&sb, tag, id)
+	}
+	return sb.String()
+}
+
+// PHP's rule for the three sites of this fixture (the guarded members are declared by VD; VS extends VD; VU is unrelated)
+func posVisAllowed(x PosCase) bool {
+	return x.Site == "subclass" && x.Mod == "prot"
+}
+
+func posVisModelPath(path string) (string, string) {
+	switch path {
+	case "propWrite", "dynPropWrite", "idxWrite":
+		return path, "write1"
+	case "methCall", "dynMeth", "staticMeth":
+		return path, "call"
+	}
+	return path, "read"
+}
+
+// model request: the operands as `seq` items evaluated left to right until the first refusal
+func posVisLine(x PosCase) string {
+	isBad := map[int]bool{}
+	for _, b := range x.Bad {
+		isBad[b] = true
+	}
+	ctx := "-"
+	switch x.Site {
+	case "subclass":
+		ctx = "2"
+	case "unrelated":
+		ctx = "3"
+	}
+	var items []string
+	for i := 0; i < 3; i++ {
+		path, mod, op, key := "methCall", "pub", "call", i+1
+		if posVisIsWrite(x.Boundary) {
+			path, op = "propWrite", "write1"
+		}
+		if isBad[i] {
+			path, op = posVisModelPath(x.Variant)
+			mod = x.Mod
+			key = 9
+		}
+		items = append(items, fmt.Sprintf("a,%s,other,%s,%s,%s,1,1,%s,%d,%d", path, mod, ctx, ctx, op, key, 10+i))
+	}
+	return "eargs\t1,-,-;2,1,-;3,-,-\t" + strings.Join(items, ";")
+}
+
+func runPosVis(c *vh.Ctx, m *vh.Model, tag string, only *PosCase) {
+	var cases []PosCase
+	if only != nil {
+		cases = []PosCase{*only}
+	} else {
+		cases = posVisCases(c, tag)
+	}
+	src := posVisScript(tag, cases)
+	posDump("vis", src)
+	out := vh.RunFresh(src)
+	got := parsePosOut(out.Out)
+	if out.Kind != "ok" {
+		viol(c, "vispos:script-"+out.Kind, fmt.Sprintf("the multi-access script ended with %s: %s", out.Kind, out.Detail), PosCase{Kind: "pos", Fam: "vis", Tag: tag})
+	}
+	var ans []string
+	if m != nil {
+		var lines []string
+		for _, x := range cases {
+			lines = append(lines, posVisLine(x))
+		}
+		var err error
+		if ans, err = m.AskBatch(lines); err != nil {
+			c.Mismatch(nil, "", err.Error(), "model driver failed (eargs)")
+			ans = nil
+		}
+	}
+	for id, x := range cases {
+		o := got[id]
+		sigBase := "vispos:" + x.Boundary + ":" + x.Variant
+		c.Eval(x.key(), len(x.Bad) > 0)
+		c.Hit("pos:vis:" + x.Boundary)
+		desc := fmt.Sprintf("%s with a %s %s access at position(s) %v of 3, from %s code", x.Boundary, x.Mod, x.Variant, x.Bad, x.Site)
+		c.SampleSome(map[string]any{"case": x, "what": desc, "impl": o}, 499)
+		if !o.found || (!o.ok && !o.denied) {
+			viol(c, sigBase+":no-outcome", "no ok/denied marker for "+desc, x)
+			continue
+		}
+		refusedAt := -1 // the first operand PHP refuses
+		if len(x.Bad) > 0 && !posVisAllowed(x) {
+			refusedAt = x.Bad[0]
+		}
+		// what the operands before the refusal did, what nothing after it may have done
+		isBad := map[int]bool{}
+		for _, b := range x.Bad {
+			isBad[b] = true
+		}
+		wantLog, wantState := "", []string{"0", "0", "0", "7", "7"}
+		call := x.Variant == "methCall" || x.Variant == "dynMeth" || x.Variant == "staticMeth"
+		for i := 0; i < 3; i++ {
+			if refusedAt >= 0 && i >= refusedAt {
+				break
+			}
+			switch {
+			case posVisIsWrite(x.Boundary) && isBad[i]:
+				if x.Mod == "priv" {
+					wantState[3] = strconv.Itoa(10 + i)
+				} else {
+					wantState[4] = strconv.Itoa(10 + i)
+				}
+			case posVisIsWrite(x.Boundary):
+				wantState[i] = strconv.Itoa(10 + i)
+			case isBad[i] && call:
+				wantLog += fmt.Sprintf("V%d.", i)
+			case isBad[i]:
+			default:
+				wantLog += fmt.Sprintf("a%d.", i)
+			}
+		}
+		wantRan := 0
+		if refusedAt < 0 && !posVisIsWrite(x.Boundary) {
+			switch x.Boundary {
+			case "fnargs", "methargs", "staticargs", "ctorargs", "closargs":
+				wantRan = 1
+			}
+		}
+		if ans != nil {
+			c.Res.Traces++
+			impl := "ok"
+			if o.denied {
+				impl = "den"
+			}
+			st := strings.Split(o.state, ",")
+			evald := strings.Count(o.log, ".")
+			impl += fmt.Sprintf(" n=%d", evald)
+			if posVisIsWrite(x.Boundary) {
+				n := 0
+				for i := 0; i < 5 && i < len(st); i++ {
+					if (i < 3 && st[i] != "0") || (i >= 3 && st[i] != "7") {
+						n++
+					}
+				}
+				impl = impl[:strings.IndexByte(impl, ' ')] + fmt.Sprintf(" n=%d", n)
+			}
+			want := ans[id]
+			if k := strings.Index(want, ":"); k >= 0 && strings.HasPrefix(want, "den") {
+				// `den:<i> n=<k>`: the index is checked through n (operands before the refusal all act)
+				want = "den" + want[strings.IndexByte(want, ' '):]
+			}
+			// a refused or allowed property READ leaves no trace in the log
+			if !call && !posVisIsWrite(x.Boundary) {
+				impl = impl[:strings.IndexByte(impl, ' ')]
+				if k := strings.IndexByte(want, ' '); k >= 0 {
+					want = want[:k]
+				}
+			}
+			if impl != want {
+				c.Mismatch(x, impl+" ["+o.log+"|"+o.state+"]", ans[id], "several member accesses in one expression: "+desc)
+			}
+		}
+		switch {
+		case o.ok && refusedAt >= 0 && posVisIsWrite(x.Boundary) && strings.HasSuffix(o.state, ",7,7"):
+			viol(c, sigBase+":silent", fmt.Sprintf("operand %d may not be written from there; it was skipped without any error reaching the script and the rest went on: %s (state %s)", refusedAt, desc, o.state), x)
+			continue
+		case o.ok && refusedAt >= 0:
+			viol(c, sigBase+":admitted", fmt.Sprintf("the expression was evaluated although operand %d may not be used from there: %s (log %s, state %s)", refusedAt, desc, o.log, o.state), x)
+			continue
+		case o.denied && refusedAt < 0:
+			viol(c, sigBase+":rejects", fmt.Sprintf("every access is allowed but the expression was refused: %s: %s %s", desc, o.class, firstN(o.msg, 100)), x)
+			continue
+		}
+		if o.ran != wantRan {
+			viol(c, sigBase+":effect", fmt.Sprintf("the callee ran %d time(s), expected %d: %s", o.ran, wantRan, desc), x)
+		}
+		if strings.Contains(o.log, "V") && refusedAt >= 0 {
+			viol(c, sigBase+":effect", fmt.Sprintf("the body of a method that may not be called ran (log %s): %s", o.log, desc), x)
+		}
+		if o.state != strings.Join(wantState, ",") {
+			viol(c, sigBase+":effect", fmt.Sprintf("the members hold %s, expected %s (writes before the refusal, nothing from it on): %s", o.state, strings.Join(wantState, ","), desc), x)
+		}
+		if o.log != wantLog {
+			viol(c, sigBase+":order", fmt.Sprintf("the operands that ran: %s, expected %s (left to right up to the refusal): %s", o.log, wantLog, desc), x)
+		}
+	}
 }
